@@ -7,10 +7,16 @@
 //        |  ( 2 request )                       one-shot client (writes the request and closes at once) through a relay that
 //              coalesces everything after the client's first flight into ONE segment: the server reads the end of the
 //              handshake, the request and the close in a single read; the same over plain TCP
+//        |  ( 3 ((kind data)..) (index..) )     overlapping connections: every client first connects (TCP only) in list
+//              order; then the clients act in the given order - kind 1: TLS handshake, request `data`, wait for the answer;
+//              kind 0: send `data` in clear text, then reset
 //   obs  ::= ( 0 handlerCalls middlewareCalls clientSawHttp liveAfter )
 //        |  ( 1 encrypted (calls log status body) (calls log status body) )       TLS first, plain second
 //        |  ( 2 encrypted (calls log) (calls log) )
+//        |  ( 3 tlsClients encryptedClients liveAfter clearSawHttp handlerCalls answered )
 #include <QCoreApplication>
+#include <memory>
+#include <vector>
 #include <QElapsedTimer>
 #include <QFile>
 #include <QSslCertificate>
@@ -217,9 +223,62 @@ Exchange oneShot(bool tls, const QByteArray &request)
 }
 }
 
+namespace {
+Val overlapping(const Val &c)
+{
+    Log log;
+    QObject scope;
+    LogHandler handler(&log, &scope);
+    Server server(&handler);
+    server.setSslConfiguration(tlsConfig());
+    if (!server.listen(QHostAddress::LocalHost, 0)) throw std::runtime_error("nolisten");
+    struct Cl { int kind; QByteArray data; QSslSocket *sock; QByteArray got; };
+    std::vector<std::unique_ptr<Cl>> cls;
+    for (auto &v : c.at(1).l) {
+        Cl *k = new Cl{int(v.at(0).asInt()), v.at(1).asBytes(), new QSslSocket, QByteArray()};
+        cls.emplace_back(k);
+        k->sock->setPeerVerifyMode(QSslSocket::VerifyNone);
+        QObject::connect(k->sock, &QSslSocket::readyRead, [k]() { k->got += k->sock->readAll(); });
+        k->sock->connectToHost(QHostAddress::LocalHost, server.serverPort());      // TCP only: no handshake yet
+        pumpTill([&]() { return k->sock->state() == QAbstractSocket::ConnectedState; }, 3000);
+        pumpMs(15);                                                                 // the server accepts it now
+    }
+    int tls = 0, enc = 0, answered = 0;
+    bool clearHttp = false;
+    for (auto &k : cls) if (k->kind == 1) ++tls;
+    for (auto &iv : c.at(2).l) {
+        qint64 i = iv.asInt();
+        if (i < 0 || i >= qint64(cls.size())) throw std::runtime_error("badcase");
+        Cl *k = cls[size_t(i)].get();
+        if (k->kind == 1) {
+            k->sock->startClientEncryption();
+            if (pumpTill([&]() { return k->sock->isEncrypted(); }, 5000)) {
+                ++enc;
+                k->sock->write(k->data); k->sock->flush();
+                pumpTill([&]() { return k->sock->state() == QAbstractSocket::UnconnectedState; }, 3000);
+                if (k->got.startsWith("HTTP/1.")) ++answered;
+            }
+            k->sock->abort();
+        } else {
+            if (!k->data.isEmpty()) { k->sock->write(k->data); k->sock->flush(); }   // QSslSocket in unencrypted mode = plain TCP
+            pumpMs(40);
+            if (k->got.contains("HTTP/")) clearHttp = true;
+            k->sock->abort();
+        }
+        pumpMs(30);
+    }
+    for (auto &k : cls) { k->sock->abort(); }
+    pumpMs(60);
+    int live = liveSockets(&server);
+    for (auto &k : cls) delete k->sock;
+    return Val::List({Val::Int(3), Val::Int(tls), Val::Int(enc), Val::Int(live), Val::Bool(clearHttp), Val::Int(log.handler), Val::Int(answered)});
+}
+}
+
 static Val run_tls(const Val &c)
 {
     int mode = int(c.at(0).asInt());
+    if (mode == 3) return overlapping(c);
     if (mode == 2) {
         QByteArray request = c.at(1).asBytes();
         Exchange a = oneShot(true, request);
